@@ -1,6 +1,7 @@
 import OFModel.Zmq.Net
 import OFProps.PairSend
 import OFProps.C04NetRecv
+import OFProps.ChainSend
 set_option linter.unusedSimpArgs false
 /-!
 # Publisher side of a chain edge (helper lemmas for `OFProps/C04Net.lean`)
@@ -18,17 +19,11 @@ open OF.Pair (PubIdle PubBusy popped)
 
 /-! ### strings: the topic frame of a topic name -/
 
-theorem c4_decode_frame0 (t : String) (h : t.startsWith "_" = false) : Recv.decodeTopic (frame0 t) = t := by
-  unfold frame0 Recv.decodeTopic
-  simp [h, String.toList_append]
-
 theorem slash_frame0 (t : String) (h : t.startsWith "_" = false) : (frame0 t).startsWith "/" = true := by
   unfold frame0
   simp only [h, Bool.false_eq_true, ↓reduceIte]
   rw [String.startsWith_string_iff]
   simp [String.toList_append]
-
-theorem c4_slash_hb : ("//" : String).startsWith "/" = true := by decide +kernel
 
 theorem decode_hb : Recv.decodeTopic "//" = "" := by decide
 
@@ -103,7 +98,7 @@ theorem publish_wire (st : Send.St) (q : List Req) (ts : List (String × Nat)) (
     split at hwo
     · cases hwo; exact ⟨rfl, rfl, rfl⟩
     · cases hwo
-  · simp only [wireOf, c4_slash_hb, ↓reduceIte, Option.some.injEq] at hwo
+  · simp only [wireOf, slash_hb, ↓reduceIte, Option.some.injEq] at hwo
     subst hwo; exact ⟨rfl, rfl, rfl⟩
 
 /-- **a publish is one complete block** (topic names non-empty) -/
@@ -117,7 +112,7 @@ theorem publish_isBlock (st : Send.St) (q : List Req) (ts : List (String × Nat)
     have : ({ frame0 := "//", sid := cidOf u, mid := st.msgId, topics := ts.map (·.1), bal := envBal st, body := 0 } : Recv.Wire) ∈
         (publish st ts).2.filterMap (wireOf u) := by
       rw [List.mem_filterMap]
-      refine ⟨.pub 0 "//" st.msgId (ts.map (·.1)) (envBal st) 0, ?_, by simp [wireOf, c4_slash_hb]⟩
+      refine ⟨.pub 0 "//" st.msgId (ts.map (·.1)) (envBal st) 0, ?_, by simp [wireOf, slash_hb]⟩
       unfold publish
       simp [hpt]
     rw [he] at this; cases this
@@ -129,7 +124,7 @@ theorem publish_isBlock (st : Send.St) (q : List Req) (ts : List (String × Nat)
     rw [List.mem_map] at ht
     rcases ht with ⟨p, hp, rfl⟩
     refine ⟨{ frame0 := frame0 p.1, sid := cidOf u, mid := st.msgId, topics := ts.map (·.1), bal := envBal st, body := p.2 }, ?_,
-      c4_decode_frame0 p.1 hvis⟩
+      decode_frame0 p.1 hvis⟩
     rw [List.mem_filterMap]
     refine ⟨.pub 0 (frame0 p.1) st.msgId (ts.map (·.1)) (envBal st) p.2, ?_, by simp [wireOf, slash_frame0 p.1 hvis]⟩
     unfold publish
@@ -167,14 +162,10 @@ theorem sendMaybe_deferred (st : Send.St) (res : Option (List (String × Nat))) 
 
 /-! ### one whole `send(callable, state, 0)` -/
 
-/-- HELLO as the consumers of node `u` see it -/
-def c4_helloW (u : Nat) : Recv.Wire :=
-  { frame0 := "//", sid := cidOf u, mid := OF.Facts.MSG_ID_HELLO, topics := [], bal := 0, body := 0 }
+theorem helloW_old (u : Nat) (P : Int) : OldW P (helloW u) := ⟨rfl, Or.inl rfl⟩
 
-theorem helloW_old (u : Nat) (P : Int) : OldW P (c4_helloW u) := ⟨rfl, Or.inl rfl⟩
-
-theorem c4_helloOuts_wires (st : Send.St) (ret : Option Bool) (u : Nat) :
-    ∀ w ∈ (helloOuts st ret).filterMap (wireOf u), w = c4_helloW u := by
+theorem helloOuts_all_hello (st : Send.St) (ret : Option Bool) (u : Nat) :
+    ∀ w ∈ (helloOuts st ret).filterMap (wireOf u), w = helloW u := by
   intro w hw
   rw [List.mem_filterMap] at hw
   rcases hw with ⟨o, ho, hwo⟩
@@ -241,7 +232,7 @@ structure SendLock (u : Nat) (p : Send.St) (q : List Req) (res : Option (List (S
   idle : PubIdle r.1 []
   out : (∃ ts, res = some ts ∧ r.1.minSendId = p.minSendId + 1 ∧ IsBlock p.minSendId (r.2.filterMap (wireOf u)) ∧
             sendRet r.2 = some (some (p.minSendId + 1))) ∨
-        (r.1.minSendId = p.minSendId ∧ (∀ w ∈ r.2.filterMap (wireOf u), w = c4_helloW u) ∧
+        (r.1.minSendId = p.minSendId ∧ (∀ w ∈ r.2.filterMap (wireOf u), w = helloW u) ∧
             ((res = none ∧ sendRet r.2 = some (some p.minSendId)) ∨ sendRet r.2 = some none))
   quiet : q = [] → r.2.filterMap (wireOf u) = [] ∧ sendRet r.2 = some none ∧ r.1.minSendId = p.minSendId
 
@@ -279,7 +270,7 @@ theorem send0_lock (u : Nat) (p : Send.St) (q : List Req) (res : Option (List (S
     have hret : sendRet (helloOuts st1 (some false) ++ [Out.retNone]) = some none := by
       rw [sendRet_noRet _ _ (noRet_hello _ _)]; rfl
     refine ⟨⟨d1.queues, d1.balance, d1.required, rfl, d1.minpos⟩, Or.inr ⟨hmin, ?_, Or.inr hret⟩, ?_⟩
-    · intro w hw'; rw [hw] at hw'; exact c4_helloOuts_wires _ _ u w hw'
+    · intro w hw'; rw [hw] at hw'; exact helloOuts_all_hello _ _ u w hw'
     · intro hq0
       have e2 := hnos hq0
       rw [e] at e2
@@ -295,7 +286,7 @@ theorem send0_lock (u : Nat) (p : Send.St) (q : List Req) (res : Option (List (S
     refine ⟨⟨d1.queues, d1.balance, d1.required, rfl, d1.minpos⟩, Or.inr ⟨hmin, ?_, Or.inl ⟨hres, hret⟩⟩, ?_⟩
     · intro w hw'
       simp only [List.singleton_append] at hw'
-      rw [hw] at hw'; exact c4_helloOuts_wires _ _ u w hw'
+      rw [hw] at hw'; exact helloOuts_all_hello _ _ u w hw'
     · intro hq0
       have e2 := hnos hq0
       rw [e] at e2
